@@ -650,6 +650,10 @@ pub fn run_c10(out: &mut Out, rng: &mut Rng, thorough: bool, only: Option<&str>)
                 s.whole(&periodic(&alpha, n as usize));
             }
         }
+        // the tiniest inputs (0..8 bytes: less than, exactly and just more than one window), all 32 option sets
+        for n in 0..=8usize {
+            s.whole(&rng.bytes(n));
+        }
         for (fam, d) in FILL_VECTORS {
             if family_matches(v.name(), fam) {
                 s.whole(d);
